@@ -25,7 +25,7 @@ func runC18(x *mc.X) {
 	spelling := mc.Pick(x, "spelling", []string{"canonical", "upper", "second-line", "extension-mixed", "after-quoted-backslash", "after-16-extensions", "after-a-repeated-directive", "after-a-numeral-beyond-int64", "after-an-empty-line"})
 	// the directive governs every request, not only the ones the cache can answer (RFC 9111 §5.2.1.7)
 	kind := mc.Pick(x, "request-kind", []string{"GET", "HEAD", "GET+Range", "POST", "GET (Method left empty)", "GET+If-None-Match"})
-	if kind != "GET" && extra != 0 {
+	if kind != "GET" && extra != 0 && x.Tier() != "thorough" {
 		x.Skip()
 	}
 	w := world.New(world.Opt{})
